@@ -827,6 +827,22 @@ func c17LSP(a *ChildArgs) {
 			}
 		}
 	}
+	if a.Shard == 0 {
+		// characters outside the basic plane on the last line (two UTF-16 units, four bytes, one rune each): the edit
+		// range of the whole-document replacement is expressed in UTF-16 units
+		for i, txt := range []string{"select  a  from t -- \U0001F389 fertig", "select 'x\U0001F600y'  as   x", "select a\nfrom  t /* \U0001F600\U0001F600 */", "select  a\n  from t\n-- \U0001F389\U0001F389\U0001F389",
+			"select  na\u00efve,  \"\U0001F600\"  from t", "select  a  from t -- \U0001F389\n"} {
+			sp := []c17Span{}
+			if k := strings.Index(txt, "--"); k >= 0 {
+				e := len(txt)
+				if j := strings.IndexByte(txt[k:], '\n'); j >= 0 {
+					e = k + j
+				}
+				sp = append(sp, c17Span{k, e, "line-comment"})
+			}
+			run(c17Text{S: txt, spans: sp, features: []string{"astral-last-line"}}, fmt.Sprintf("catalogue/astral-%d", i))
+		}
+	}
 	for i := 0; i < a.N; i++ {
 		r := rand.New(rand.NewSource(base + int64(i)*15485863))
 		run(c17Build(r, true, mon.AvoidFeatures()), "random")
